@@ -274,8 +274,9 @@ def repetition_text(draw, v, ref, ec, leaf_fn=leaf):
     dt = ref[2]
     ch = T.ref_children(v, ref)
     if not ch:
-        if dt == 'varies' and draw(st.integers(0, 3)) == 0:
-            n = draw(st.integers(2, 3))
+        if dt == 'varies' and draw(st.integers(0, 1)) == 0:
+            # (a varies field may carry any value, a long one too: XCN / XAD values have more than nine components)
+            n = draw(st.sampled_from([2, 2, 3, 3, 10, 11, 12, 23]))
             parts = [draw(textual_leaf(v, ec, 1)) if (i == n - 1 or draw(st.booleans())) else '' for i in range(n)]
             return ec['COMPONENT'].join(parts)
         return draw(leaf_fn(v, dt, ec))
